@@ -166,8 +166,11 @@ def node_engine(res, work, *, node, trace_module, cfgs, consts_of, adapt, attrib
         else:
             prop, why = attribute(r, t, got[0])
             evt = t[got[0] - 1] if got[0] <= len(t) else {"ev": "end"}
+            # a counter sequence that differs from the specification's is always a balance problem (C05); it is a
+            # safety problem (C04) in addition when the callback came too early
+            also = ["C05"] if prop == "C04" else []
             res.violations.append(dict(
-                property=prop, engine=res.name, clause=evt["ev"],
+                property=prop, also=also, engine=res.name, clause=evt["ev"],
                 what="%s %s schedule '%s': event #%d %s -- %s" % (
                     node, json.dumps(r["cfg"], sort_keys=True), " ".join(r["schedule"]), got[0], evt, why),
                 signature=dict(kind="trace", node=node, event=evt["ev"]),
